@@ -216,6 +216,8 @@ Effects(s, cx) ==
   \cup (IF E("ret") THEN {[op |-> "ret", rid |-> r] : r \in TopRets(s)} ELSE {})
   \cup (IF E("retdrop") THEN {[op |-> "retdrop", rid |-> r] : r \in TopRets(s)} ELSE {})
   \cup (IF E("keepret") /\ cx.k = "meth" THEN {[op |-> "keepret", rid |-> r] : r \in TopRets(s)} ELSE {})
+  \cup (IF E("apply") /\ HasStakker(cx) /\ s.nextId <= MaxItems
+        THEN {[op |-> "apply", aid |-> a, qb |-> qb] : a \in ActorsOf(s), qb \in {"none", "stop", "fail"}} ELSE {})
   \cup (IF E("query") /\ HasStakker(cx) /\ s.nextId <= MaxItems
         THEN {[op |-> "query", aid |-> a, qb |-> qb] : a \in ActorsOf(s), qb \in {"none", "stop", "fail"}} ELSE {})
   \cup (IF E("mkfwd") /\ s.nextFid <= MaxRets THEN {[op |-> "mkfwd", aid |-> a] : a \in ActorsOf(s)} ELSE {})
@@ -359,6 +361,28 @@ ApplyEff(s, cx, f) ==
          Op(Emit([s EXCEPT !.rets[f.rid].loc = "state", !.actors[cx.aid].keptR = Append(@, f.rid)],
                  [e |-> "keepret", rid |-> f.rid, by |-> cx.aid]),
             [op |-> "keepret", rid |-> f.rid])
+    [] f.op = "apply" ->
+         \* Actor::apply, what lazy!/idle!/after!([actor], method()) do when their turn comes: runs now on a
+         \* Ready actor, is held for a Prep one (its body is then chosen when it runs), is released on a Zombie
+         LET a == f.aid
+             id == s.nextId
+             code == "p" \o ToString(id)
+             s0 == Emit([s EXCEPT !.nextId = @ + 1], [e |-> "apply", item |-> id, aid |-> a])
+             oprec == [op |-> "apply", aid |-> a, item |-> id, qb |-> f.qb, code |-> code]
+         IN IF s.actors[a].inner = "ready"
+            THEN LET s1 == Emit(s0, [e |-> "x", item |-> id, now |-> T(s.now), aid |-> a, prep |-> FALSE])
+                     s2 == IF f.qb = "stop"
+                           THEN Emit([s1 EXCEPT !.actors[a].die = IF @ = "" THEN "stopped" ELSE @], [e |-> "stop", aid |-> a])
+                           ELSE IF f.qb = "fail"
+                           THEN Emit([s1 EXCEPT !.actors[a].die = IF @ = "" THEN "failed:" \o code ELSE @],
+                                     [e |-> "fail", aid |-> a, code |-> code])
+                           ELSE s1
+                     s3 == Emit(Emit(s2, [e |-> "xe", item |-> id]), [e |-> "drop", item |-> id, ran |-> TRUE])
+                     die == s3.actors[a].die
+                 IN Op(IF die # "" THEN DTerminate([s3 EXCEPT !.actors[a].die = ""], a, die) ELSE s3, oprec)
+            ELSE IF s.actors[a].inner = "prep"
+            THEN Op([s0 EXCEPT !.actors[a].prepQ = Append(@, Clo("call", id, a, FALSE))], [oprec EXCEPT !.qb = "held"])
+            ELSE Op(Emit(s0, [e |-> "drop", item |-> id, ran |-> FALSE]), oprec)
     [] f.op = "query" ->
          \* Actor::query (actor.rs): borrow_ready, run, terminate if cx.die, Some(rv); else None
          LET a == f.aid
